@@ -13,10 +13,13 @@ import (
 	"os"
 	"os/exec"
 	"path/filepath"
+	"runtime"
+	"runtime/metrics"
 	"sort"
 	"strconv"
 	"strings"
 	"sync"
+	"sync/atomic"
 	"syscall"
 	"time"
 )
@@ -298,10 +301,13 @@ func WorkerMain(c *Check, env *Env, shard, of, from int, journal string, only bo
 		os.Exit(3)
 	}
 	n := c.NumCases(env)
+	var curIdx atomic.Int64
+	go memoryWatchdog(&curIdx)
 	for idx := from; idx < n; idx++ {
 		if idx%of != shard {
 			continue
 		}
+		curIdx.Store(int64(idx))
 		fmt.Fprintf(jf, "S %d\n", idx)
 		res := runCaseGuarded(c, env, idx)
 		b, _ := json.Marshal(journalRec{idx, res})
@@ -315,6 +321,27 @@ func WorkerMain(c *Check, env *Env, shard, of, from int, journal string, only bo
 		}
 	}
 	jf.Close()
+}
+
+// memoryWatchdog ends the child (exit 4, goroutine dump on stderr) when its memory exceeds VERIF_MEMLIMIT_MB (default 16384):
+// an engine loop that allocates without bound becomes a reported crash of the journalled case instead of a machine-wide OOM.
+func memoryWatchdog(cur *atomic.Int64) {
+	limit := uint64(16384)
+	if v, err := strconv.ParseUint(os.Getenv("VERIF_MEMLIMIT_MB"), 10, 64); err == nil && v > 0 {
+		limit = v
+	}
+	sample := []metrics.Sample{{Name: "/memory/classes/total:bytes"}, {Name: "/memory/classes/heap/released:bytes"}}
+	for {
+		time.Sleep(100 * time.Millisecond)
+		metrics.Read(sample)
+		used := (sample[0].Value.Uint64() - sample[1].Value.Uint64()) >> 20
+		if used > limit {
+			buf := make([]byte, 1<<20)
+			buf = buf[:runtime.Stack(buf, true)]
+			fmt.Fprintf(os.Stderr, "fatal error: memory watchdog: the process holds %d MB (limit %d MB) in case %d; engine frames: %s\n\n%s\n", used, limit, cur.Load(), engineFramesOf(string(buf)), buf)
+			os.Exit(4)
+		}
+	}
 }
 
 // runCaseGuarded converts a panic on the case goroutine into a violation of kind "panic".
@@ -897,6 +924,12 @@ func hangFrames(p string) string {
 	if err != nil {
 		return ""
 	}
+	return engineFramesOf(string(b))
+}
+
+// engineFramesOf lists the innermost engine function of every goroutine in a dump (distinct, at most 8).
+func engineFramesOf(dump string) string {
+	b := []byte(dump)
 	seen := map[string]bool{}
 	var out []string
 	for _, g := range strings.Split(string(b), "\n\n") {
